@@ -310,6 +310,14 @@ pub fn source_repeats_a_call(src: &str) -> bool {
             if matches!(h.borrow(), SExp::Atom(_, _)) && s.proper_list().map(|l| l.len() >= 3).unwrap_or(false) {
                 out.push(s.to_string());
             }
+            // (list a b c) expands to (c a (c b (c c ()))): every suffix is a call form of its own
+            if let (SExp::Atom(_, n), Some(l)) = (h.borrow(), s.proper_list()) {
+                if n == b"list" {
+                    for i in 2..l.len() {
+                        out.push(format!("(list {})", l[i..].iter().map(|x| x.to_string()).collect::<Vec<_>>().join(" ")));
+                    }
+                }
+            }
             collect(h.borrow(), out);
             collect(t.borrow(), out);
         }
